@@ -19,13 +19,14 @@ READY = True
 LEVEL = "exploration"
 TECHNIQUE = ("runtime monitoring: histories of Diagnostic instantiation / register_function / diagnose_network calls in one "
              "process, every call compared with the same call executed in a pristine process; input tables snapshot-compared")
-CASES = {"quick": 32, "thorough": 1000}
-BUDGET = {"quick": 100, "thorough": 1500}
+CASES = {"quick": 10, "thorough": 1000}
+SHARDS = {"quick": 5, "thorough": 8}   # every case forks ~10 pristine children: more parallel cases only add kernel contention
+BUDGET = {"quick": 60, "thorough": 1500}
 CASE_TIMEOUT = 900
-FLOORS = {"quick": {"nontrivial": 14, "tags": {"two_default_instances": 14, "register_on_default": 10, "nondefault_instance": 7,
-                                               "same_instance_kwargs_change": 14, "report_compact": 8, "report_detailed": 8},
-                    "extras": {"diagnose_calls": 90, "leak_observable_calls": 45, "new_instances_checked": 65,
-                               "results_with_findings": 80}, "max_skip_frac": 0.1},
+FLOORS = {"quick": {"nontrivial": 4, "tags": {"two_default_instances": 5, "register_on_default": 2, "nondefault_instance": 2,
+                                               "same_instance_kwargs_change": 3, "report_compact": 2, "report_detailed": 2},
+                    "extras": {"diagnose_calls": 20, "leak_observable_calls": 4, "new_instances_checked": 15,
+                               "results_with_findings": 20}, "max_skip_frac": 0.1},
           "thorough": {"nontrivial": 450, "tags": {"two_default_instances": 450, "register_on_default": 300, "nondefault_instance": 200},
                        "extras": {"diagnose_calls": 3000, "leak_observable_calls": 1400}, "max_skip_frac": 0.1}}
 RULE = ("one case = one history (8-14 operations: new Diagnostic(add_default_functions), register_function of probe functions, "
@@ -61,11 +62,14 @@ def rnd_kwargs(g):
     return {keys[int(i)]: g.C(KW[keys[int(i)]]) for i in g.rng.choice(len(keys), size=k, replace=False)}
 
 
+HIST_LEN = [(8, 14)]     # run_case sets (4, 7) for the quick tier: one diagnose_network call costs seconds
+
+
 def gen_history(g):
     ops = [["new", 0, True]]
     insts = {0: True}
     n_diag = 0
-    for _ in range(g.I(8, 14)):
+    for _ in range(g.I(*HIST_LEN[0])):
         r = g.rng.random()
         if r < 0.25:
             i = len(insts)
@@ -146,6 +150,7 @@ def plan(ops):
 
 
 def run_case(seed, tier, case_no):
+    HIST_LEN[0] = (4, 7) if tier == "quick" else (8, 14)
     g = netgen.G(seed)
     nets = {"a": make_net(g, seed), "b": make_net(g, seed + 1)}
     ops = gen_history(g)
@@ -160,6 +165,7 @@ def run_case(seed, tier, case_no):
     env = dict(os.environ)
     env["PYTHONPATH"] = common.VERIF + os.pathsep + common.REPO
     try:
+        env["NUMBA_DISABLE_JIT"] = "1"   # every expectation runs in a pristine forked child: JIT compilation per child would dominate
         p = subprocess.run([common.PY, "-m", "pv.oracles.diag_proc", jf, of], cwd=common.VERIF, env=env, timeout=800,
                            stdout=subprocess.DEVNULL, stderr=subprocess.PIPE)
         with open(of) as f:
